@@ -20,7 +20,7 @@ LEAN_NAMESPACES = ['MpycV.C30']
 REQUIRED_THEOREMS = ['addBits_spec', 'fromBits_bitsOf', 'toBits_spec', 'toBits_fromBits', 'toBits_assert',
                      'find_spec', 'find_empty', 'unitVector_spec', 'unitVector_wrap', 'trailingZeros_spec',
                      'gcp2_spec']
-RULE = ('add_bits: all pairs of bit vectors of length <= 4 (quick) / 6 (thorough) + random up to 40 bits; '
+RULE = ('add_bits: all pairs of bit vectors of length <= 3 (quick) / 6 (thorough) + random up to 40 bits; '
         'to_bits: secint(16) and secfxp(16,4) values incl. extremes x every l (0..L+f, None, one above); '
         'from_bits: all bit vectors <= 6/8 bits; find: bit vectors <= 4/6 bits x a public/secret/general x e in '
         '{default, int, None, string} x f/cs_f families, empty list; unit_vector: all a <= n <= 17; '
@@ -262,7 +262,7 @@ def gen_cases(ctx):
     rng = ctx.subrng('cases')
     cases = []
     # add_bits
-    nadd = ctx.scale(4, 6)
+    nadd = ctx.scale(3, 6)
     for n in range(0, nadd + 1):
         for x in itertools.product((0, 1), repeat=n):
             for y in itertools.product((0, 1), repeat=n):
